@@ -853,6 +853,46 @@ fn gen_c02(thorough: bool, rng: &mut Rng, emit: &mut dyn FnMut(&str, Vec<String>
             s("-"),
         ],
     );
+    // response fields with a meaning in plain HTTP never change the outcome of a session setup
+    for (i, resp) in [
+        vec![("content-length", "42")],
+        vec![("content-length", "0")],
+        vec![("content-type", "text/plain"), ("server", "x")],
+        vec![("location", "/elsewhere")],
+        vec![("retry-after", "5"), ("set-cookie", "a=b")],
+        vec![("sec-webtransport-http3-draft", "draft02")],
+    ]
+    .iter()
+    .enumerate()
+    {
+        let resp: Vec<(String, String)> = resp.iter().map(|(k, v)| (k.to_string(), v.to_string())).collect();
+        emit(
+            "connect",
+            vec![
+                s(RTS[i % 2]),
+                h("https://localhost:PORT/resp"),
+                pairs_arg(&[]),
+                s("accept_hdrs"),
+                pairs_arg(&resp),
+            ],
+        );
+    }
+    // request fields with a meaning in plain HTTP are carried like any other
+    for (i, req) in [
+        vec![("content-length", "42")],
+        vec![("authorization", "Bearer abc"), ("cookie", "a=b")],
+        vec![("host", "other.example")],
+        vec![("te", "trailers"), ("priority", "u=3")],
+    ]
+    .iter()
+    .enumerate()
+    {
+        let req: Vec<(String, String)> = req.iter().map(|(k, v)| (k.to_string(), v.to_string())).collect();
+        emit(
+            "connect",
+            vec![s(RTS[i % 2]), h("https://localhost:PORT/req"), pairs_arg(&req), s("accept"), s("-")],
+        );
+    }
     // reserved names are refused locally
     for name in [":path", ":method", ":authority", ":scheme", ":protocol"] {
         emit(
